@@ -21,13 +21,13 @@ import (
 // ---- C07 / C08: generated image = source tree; structurally valid -----------------
 
 type isoCase struct {
-	Tree     *hx.Node `json:"tree"`
-	PS3      bool     `json:"ps3"`
-	TitleID  string   `json:"title_id,omitempty"`
+	Tree     *hx.Node    `json:"tree"`
+	PS3      bool        `json:"ps3"`
+	TitleID  string      `json:"title_id,omitempty"`
 	SFOExtra [][2]string `json:"sfo_extra,omitempty"`
-	PermSeed uint64   `json:"perm_seed"`
-	Route    string   `json:"route"` // lib | net | makeiso | synth
-	RootName string   `json:"root_name,omitempty"` // name of the directory the image is made of (volume name in plain mode)
+	PermSeed uint64      `json:"perm_seed"`
+	Route    string      `json:"route"`               // lib | net | makeiso | synth
+	RootName string      `json:"root_name,omitempty"` // name of the directory the image is made of (volume name in plain mode)
 }
 
 func (c isoCase) rootName() string {
